@@ -1,3 +1,47 @@
-import MosnVerif.Model.FilterSpec
+import MosnVerif.Lemmas.FilterMachine
+/-!
+# C14 — stream filters run in order, and a denied request is never forwarded (property theorems only)
+
+Objects: `Cfg` = receiver chain (any length, any phase assignment, any script per filter = any verdict vector, also for
+re-invocations), sender chain, environment (every route-match / host-choice result by invocation number, pool refusal,
+one-way, the upstream event: response / reset / asynchronous TerminateStream).  `run c n init` = the state of the
+stream's worker after `n` iterations of the `receive` loop; all statements hold for every `n` (every point of the
+run), in particular for the finished run `trace c`.
+-/
 namespace MosnVerif.Props.C14
+open MosnVerif.Gen.FilterPhase MosnVerif.Model.FilterChain MosnVerif.Model.FilterMachine
+
+/-- **order**: in every receiver pass (one `RunReceiverFilter` call, recorded with its start cursor) the invoked filters
+have strictly increasing indices, none below the start cursor, and every one of them is a configured filter registered
+for the phase of the pass. -/
+theorem order (c : Cfg) (n : Nat) (p : RPhase) (st : Nat) (invs : List Inv)
+    (h : Ev.rpass p st invs ∈ (run c n init).trace) :
+    ascFrom st invs ∧ ∀ iv ∈ invs, ∃ f, c.recv[iv.1]? = some f ∧ f.phase = p :=
+  (run_Pinv c n init (init_Pinv c)).passes p st invs h
+
+/-- **once (receiver side)**: each receiver filter is invoked at most once per pass of its phase. -/
+theorem once_receive (c : Cfg) (n : Nat) (p : RPhase) (st : Nat) (invs : List Inv)
+    (h : Ev.rpass p st invs ∈ (run c n init).trace) (i : Nat) :
+    (invs.filter (fun iv => iv.1 == i)).length ≤ 1 :=
+  ascFrom_count_le_one (order c n p st invs h).1 i
+
+/-- **resume**: every receiver pass starts exactly where the previous pass left the cursor — at the filter that asked
+for re-match-route / re-choose-host if the previous pass ended with such a request, and at 0 otherwise; together with
+`order` (no index below the start cursor) earlier filters are not re-run. -/
+theorem resume (c : Cfg) (n : Nat) : resumeOK 0 (run c n init).trace :=
+  (run_Pinv c n init (init_Pinv c)).resume
+
+/-- **deny_not_forwarded**: if any receiver-filter invocation answered the request (hijack / direct response) or
+terminated it (termination status or `TerminateStream`), then no `connPool.NewStream` — admitted or refused — occurs
+anywhere in the trace, whatever the other filters return (continue, re-match, re-choose, …) and whatever the
+environment does. -/
+theorem deny_not_forwarded (c : Cfg) (n : Nat) (p : RPhase) (st : Nat) (invs : List Inv) (iv : Inv)
+    (h : Ev.rpass p st invs ∈ (run c n init).trace) (hiv : iv ∈ invs) (hd : iv.2.isDeny = true) :
+    ∀ e ∈ (run c n init).trace, ∀ r, e ≠ Ev.up r := by
+  have hno := deny_noUp c n ⟨_, h, by simp only [denyEv, List.any_eq_true]; exact ⟨iv, hiv, hd⟩⟩
+  intro e he r heq
+  subst heq
+  have := hno _ he
+  simp [isUp] at this
+
 end MosnVerif.Props.C14
